@@ -265,10 +265,9 @@ def run_case(case):
             run = run.replace("    chk2plt('run/chk00005', gradp=%r, species_reactions=%r, floor_massfracs=%r, %s%s)\n" % (gradp, reactions, floor, kw, '' if default_out else ", pltdir='outplt'"),
                               "    import sys\n    from amr_kitchen.chk2plt import cli\n    sys.argv = %r\n    cli.main()\n" % (cli_argv(gradp, reactions, floor),))
         val = common.Valuation(v.get('model'))
-        d = replay_lib.make_tool_replay('C17', sig, v['what'], inputs, run,
+        d, status, out = common.replay_portfolio(lambda: replay_lib.make_tool_replay('C17', sig, v['what'], inputs, run,
                                         {'kind': 'tree', 'tree_exp': expected(chk, gradp, reactions, floor), 'compare': 'close' if floor else 'bits',
-                                         'out': 'run/plt00005' if default_out else 'outplt', 'taste_args': {'boxes_coordinates': True}}, val=val)
-        status, out = common.run_replay(d)
+                                         'out': 'run/plt00005' if default_out else 'outplt', 'taste_args': {'boxes_coordinates': True}}, val=val))
         v2 = {'signature': sig, 'what': v['what'], 'replay': d}
         if status == 'reproduced':
             res['violations'].append(v2)
